@@ -71,6 +71,8 @@ type (
 		parser   parser.Parser
 		// Number of packets received so far. Protected by parserMu.
 		packetSeq uint64
+		// Slot of the packet that was received last. See dispatch.go. Protected by parserMu.
+		dispatchTail *dispatchSlot
 
 		noReconnection       bool
 		reconnectionAttempts uint32
@@ -235,7 +237,22 @@ func (m *Manager) onParserFinish(header *parser.PacketHeader, eventName string, 
 	// Number the packets in the order they were received (this callback runs under
 	// parserMu) so that the socket can keep the offset of the LATEST packet.
 	m.packetSeq++
-	go socket.onPacket(header, eventName, decode, m.packetSeq)
+	seq := m.packetSeq
+
+	// Handlers are entered in the order the packets were received. See dispatch.go.
+	// `release` is called right before user code is entered, at the latest on return.
+	prev := m.dispatchTail
+	own := newDispatchSlot()
+	m.dispatchTail = own
+	go func() {
+		if prev != nil {
+			prev.wait()
+		}
+		release := sync.OnceFunc(func() { close(own.started) })
+		defer close(own.finished)
+		defer release()
+		socket.onPacket(header, eventName, decode, seq, release)
+	}()
 }
 
 func (m *Manager) packet(packets ...*eioparser.Packet) {
